@@ -73,6 +73,7 @@ structure Ghost where
   mdLate : List Nat := []
   delInFlight : List Nat := []
   handles : List GHandle := []
+  mdFailed : List Nat := []      -- keys whose metadata flush failed on the disk store: dropped from disk by the flusher
 
 structure St where
   t : TState := tinit 4 64 1
@@ -83,6 +84,7 @@ structure St where
   buf : Nat := 0                    -- chunk length of the copy loop (0: everything at once)
   files : List TFile := []          -- open tiered.File handles, by handle number
   pending : Option (List String × COp × Nat) := none   -- a client operation in progress: tokens, op, next segment
+  faults : List (Nat × Nat) := []   -- (key, suffix): the disk store's write of this sidecar fails (planted directory)
 
 def lookupA {β : Type} (l : List (Nat × β)) (k : Nat) : Option β := (l.find? (·.1 = k)).map (·.2)
 def eraseA {β : Type} (l : List (Nat × β)) (k : Nat) : List (Nat × β) := l.filter (·.1 ≠ k)
@@ -181,6 +183,13 @@ def opFails (s : St) (name : String) (k : Nat) (sc : Scope) (sfx : Nat) (impl : 
       else [pf (classify g k "lost-blob") s!"open {keyTok k}: completed with {bytesTok bytes}, implementation returned {sp impl}"]
     | none => []
   | "getmd" =>
+    -- after a failed metadata flush the flusher drops the blob from disk: it may be gone, it must not
+    -- come back with a value older than the last acknowledged update
+    if k ∈ g.mdFailed ∧ (lookupA g.done k).isSome ∧ sc ≠ .incomplete then
+      let want := match mdOf g k sfx with | some v => ["ok", bytesTok v] | none => ["absent"]
+      if impl = want ∨ impl = ["notexist"] then []
+      else [pf "stale-metadata-after-failed-flush" s!"getmd {keyTok k} {sfxTok sfx}: last acknowledged update {sp want}, its flush to disk failed, implementation returned {sp impl}"]
+    else
     if (lookupA g.done k).isNone ∨ exempt ∨ sc = .incomplete then [] else
     let want := match mdOf g k sfx with | some v => ["ok", bytesTok v] | none => ["absent"]
     if impl = want then []
@@ -214,7 +223,8 @@ def ghostOp (s : St) (name : String) (k : Nat) (sfx : Nat) (data : List Nat) (im
     { g with live := k :: g.live.filter (· ≠ k), content := (k, data) :: eraseA g.content k,
              done := eraseA g.done k, md := g.md.filter (fun e => e.1.1 ≠ k),
              recreated := if inFlight g k then k :: g.recreated else g.recreated.filter (· ≠ k),
-             mdLate := g.mdLate.filter (· ≠ k), delInFlight := g.delInFlight.filter (· ≠ k) }
+             mdLate := g.mdLate.filter (· ≠ k), delInFlight := g.delInFlight.filter (· ≠ k),
+             mdFailed := g.mdFailed.filter (· ≠ k) }
   | "complete" =>
     if !ok ∨ k ∉ g.live ∨ (lookupA g.done k).isSome then g else
     -- immovable metadata (odd suffix ids) is dropped at completion
@@ -226,7 +236,7 @@ def ghostOp (s : St) (name : String) (k : Nat) (sfx : Nat) (data : List Nat) (im
              md := g.md.filter (fun e => e.1.1 ≠ k),
              delInFlight := if inFlight g k then k :: g.delInFlight else g.delInFlight.filter (· ≠ k),
              recreated := if inFlight g k then g.recreated else g.recreated.filter (· ≠ k),
-             mdLate := g.mdLate.filter (· ≠ k) }
+             mdLate := g.mdLate.filter (· ≠ k), mdFailed := g.mdFailed.filter (· ≠ k) }
   | "setmd" =>
     if !ok then g else
     let g := setMdG g k sfx (some data)
@@ -487,6 +497,14 @@ def stepHandle (s : St) (args impl : List String) : Option (St × StepOut) :=
           { obs := if known then obs else impl,
             branch := s!"hsize.{if !known then "unlinked" else if r.2.1.sw = .bad then "badswitch" else if switched then (if f.moff > 0 then "switch+mid" else "switch") else if f.sw ≠ .notYet then "disk" else "mem"}",
             propfails := if fails.isEmpty then generic else fails })
+  | ["mdfault", kt, st] => do
+    let k ← key? kt
+    let sfx ← sfx? st
+    some ({ s with faults := (k, sfx) :: s.faults }, { obs := ["ok"], branch := "mdfault" })
+  | ["mdunfault", kt, st] => do
+    let k ← key? kt
+    let sfx ← sfx? st
+    some ({ s with faults := s.faults.filter (· ≠ (k, sfx)) }, { obs := ["ok"], branch := "mdunfault" })
   | ["hclose", ht] => do
     let i ← handle? ht
     let _ ← s.files[i]?
@@ -503,8 +521,15 @@ def stepWorker (s : St) (impl : List String) : Option (St × StepOut) :=
     | .fCopy, _ => s.buf
     | .fCopyEof, _ => s.buf
     | _, _ => 0
-  let t' := runWorker s.t pick 64
-  let (gs', bad) := if s.inClass then runWorkerG s.gs pick 64 else (s.gs, "")
+  -- the disk store cannot write this sidecar (a directory sits where its tmp file goes): flushMetadata
+  -- fails, the failure handler takes over — it drops the blob from disk like an eviction from disk
+  let faulted := match w.pc with
+    | .mdWrite sfx (some (some _)) _ => s.faults.contains (w.key, sfx)
+    | _ => false
+  let t' := if faulted then
+      { s.t with workers := s.t.workers.set 0 { w with pc := .fail1 }, diskEvicted := w.key :: s.t.diskEvicted }
+    else runWorker s.t pick 64
+  let (gs', bad) := if s.inClass ∧ !faulted then runWorkerG s.gs pick 64 else (s.gs, "")
   let mfail := if bad = "" then [] else [s!"side=model key=model-invariant after a worker step: {bad}"]
   let w' := worker0 t'
   let name := (seamOf w').getD "?"
@@ -528,8 +553,11 @@ def stepWorker (s : St) (impl : List String) : Option (St × StepOut) :=
       [pf "worker-panic" s!"the flush worker panicked (a panic on its goroutine takes the process down): {sp impl}; the reference parks at {sp obs}"]
     else if bad then [pf "md-flush-not-dirty" s!"worker flushes {sp impl}, dirty snapshot is {sp obs}"] else
     if obs ≠ impl then [pf "result-step" s!"worker: reference parks at {sp obs}, implementation at {sp impl}"] else []
-  some ({ s with t := t', g := g, pendingSfx := pend, gs := gs' },
-        { obs := obs, branch := s!"step.{name}{if s.pending.isSome then "+split" else ""}", propfails := fails ++ mfail })
+  let g := if faulted then { g with mdFailed := w.key :: g.mdFailed } else g
+  -- the failure handler removes the blob's directory on disk, the planted directory with it
+  let faults := if faulted then s.faults.filter (·.1 ≠ w.key) else s.faults
+  some ({ s with t := t', g := g, pendingSfx := pend, gs := gs', inClass := s.inClass && !faulted, faults := faults },
+        { obs := obs, branch := s!"step.{name}{if faulted then "+mdfault" else ""}{if s.pending.isSome then "+split" else ""}", propfails := fails ++ mfail })
 
 def stepProbe (s : St) (impl : List String) : Option (St × StepOut) :=
   let obs := probeToks s.t
@@ -540,7 +568,8 @@ def stepProbe (s : St) (impl : List String) : Option (St × StepOut) :=
 def step (s : St) (kind : String) (args impl : List String) : Option (St × StepOut) :=
   if kind = "op" then
     match args.head? with
-    | some "openk" | some "hread" | some "hreadat" | some "hsize" | some "hclose" => stepHandle s args impl
+    | some "openk" | some "hread" | some "hreadat" | some "hsize" | some "hclose" | some "mdfault" | some "mdunfault" =>
+      stepHandle s args impl
     | _ => stepOp s args impl
   else if kind = "step" ∨ kind = "cstep" then stepWorker s impl
   else if kind = "probe" then stepProbe s impl
